@@ -314,6 +314,87 @@ def rewrite_builtin(text, cnt, mutable=True):
     return toks_text(out)
 
 
+def rewrite_method_to_fn(text, method, fn, cnt):
+    """R6: `<recv>.method(args)` / `<recv>.method::<T>(args)` -> `fn(<recv>, args)`  (token based, receiver = postfix chain before the dot)"""
+    toks = lex(text)
+    out, k, n = [], 0, len(toks)
+
+    def nxt(j):
+        while j < n and toks[j].kind not in CODE: j += 1
+        return j
+    mtoks = [t.text for t in lex(method) if t.kind in CODE]
+    while k < n:
+        t = toks[k]
+        if t.kind == "p" and t.text == ".":
+            j = nxt(k + 1)
+            ok = True
+            jj = j
+            for w in mtoks:
+                jj = nxt(jj)
+                if jj >= n or toks[jj].text != w: ok = False; break
+                jj += 1
+            if ok:
+                j2 = nxt(jj)
+                if j2 < n and toks[j2].text == "(":
+                    close = match_close(toks, j2)
+                    p = len(out) - 1
+                    while p >= 0 and out[p].kind not in CODE: p -= 1
+                    q = p
+                    while q >= 0:
+                        tq = out[q]
+                        if tq.kind in ("id", "num", "str") or (tq.kind == "p" and tq.text in ".:"):
+                            q -= 1; continue
+                        if tq.kind == "p" and tq.text in ")]":
+                            depth = 0
+                            while q >= 0:
+                                if out[q].kind == "p" and out[q].text in ")]": depth += 1
+                                elif out[q].kind == "p" and out[q].text in "([":
+                                    depth -= 1
+                                    if depth == 0: break
+                                q -= 1
+                            q -= 1; continue
+                        if tq.kind in ("ws", "lcom", "bcom"):
+                            f = q + 1
+                            while f <= p and out[f].kind not in CODE: f += 1
+                            if f <= p and out[f].text == ".":
+                                q -= 1; continue
+                        break
+                    rs = q + 1
+                    while rs <= p and out[rs].kind not in CODE: rs += 1
+                    # a leading `&` / `*` / `!` belongs to the enclosing expression, not to the receiver
+                    recv = out[rs:p + 1]
+                    del out[rs:]
+                    inner = toks_text(toks[j2 + 1:close])
+                    inner = rewrite_method_to_fn(inner, method, fn, cnt)
+                    args = inner.strip()
+                    out.append(Tok("p", "%s(%s%s" % (fn, toks_text(recv), (", " + args) if args else ""), 0, 0))
+                    out.append(Tok("p", ")", 0, 0))
+                    cnt.add("R6.method `.%s(` => `%s(`" % (method, fn))
+                    k = close + 1
+                    continue
+        out.append(t)
+        k += 1
+    return toks_text(out)
+
+
+def replace_all_calls(text, head, repl, cnt):
+    """R6: every `<head>(...)` / `<head>!(...)` call is replaced by `repl` (arguments dropped)"""
+    while True:
+        btoks = lex(text)
+        ftoks = [t for t in lex(head) if t.kind in CODE]
+        code = [q for q, t in enumerate(btoks) if t.kind in CODE]
+        hit = None
+        for ci in range(len(code) - len(ftoks)):
+            if all(btoks[code[ci + d]].text == ftoks[d].text for d in range(len(ftoks))):
+                nx = code[ci + len(ftoks)]
+                if btoks[nx].text in "([{":
+                    hit = (btoks[code[ci]].start, btoks[match_close(btoks, nx)].end); break
+        if hit is None:
+            return text
+        text = text[:hit[0]] + repl + text[hit[1]:]
+        cnt.add("R6.all-calls `%s` => `%s`" % (head, repl))
+
+
 def rewrite_types(text, cnt):
     """R2/R3 on field types: RwLock<T> / Mutex<T> -> T ; AtomicUsize -> usize ; AtomicBool -> bool"""
     toks = lex(text)
@@ -418,6 +499,9 @@ class Unit:
         self.dropped = []    # human readable list of what the extraction dropped
         self.diffs = {}
         self.unit_rewrites = []
+        self.unit_method_shims = []
+        self.unit_call_repl = []
+        self.unit_sig_rewrites = []
 
     def emit(self, text, owner, label, kind, src=None):
         for ln in text.split("\n"):
@@ -462,6 +546,15 @@ class Unit:
             d = parts[0] if parts else ""
             if d in ("unit", "props", "note", "expect-labels"):
                 i += 1; continue
+            if d == "unit-method-shim":
+                m = re.match(r"//@unit-method-shim\s+`(.*?)`\s*=>\s*`(.*?)`\s*$", ln)
+                self.unit_method_shims.append((m.group(1), m.group(2))); i += 1; continue
+            if d == "unit-replace-calls":
+                m = re.match(r"//@unit-replace-calls\s+`(.*?)`\s*=>\s*`(.*?)`\s*$", ln)
+                self.unit_call_repl.append((m.group(1), m.group(2))); i += 1; continue
+            if d == "unit-sig-rewrite":
+                m = re.match(r"//@unit-sig-rewrite\s+`(.*?)`\s*=>\s*`(.*?)`\s*$", ln)
+                self.unit_sig_rewrites.append((m.group(1), m.group(2))); i += 1; continue
             if d == "unit-rewrite":
                 self.unit_rewrites.append(_parse_rewrite(ln, self.vc_path, i))
                 i += 1; continue
@@ -664,6 +757,11 @@ class Unit:
                 wh = " " + rt[mwh.start():]; rt = rt[:mwh.start()].strip()
             sig = toks_text(stoks[:arrow]).rstrip() + " -> (%s: %s)%s" % (ret, rt, wh)
         sig = rewrite_types(sig, self.counts)
+        for (frm, to) in self.unit_sig_rewrites:
+            try:
+                sig = apply_literal_rewrite(sig, frm, to, None, self.counts, "%s sig" % path)
+            except AnchorLost:
+                pass
         for (frm, to, expect, _w) in [r for r in rewrites if r[3] == "sig"]:
             sig = apply_literal_rewrite(sig, frm, to, expect, self.counts, "%s sig" % path)
         # body rewrites
@@ -687,6 +785,10 @@ class Unit:
                         pass
                 else:
                     new_body = apply_literal_rewrite(new_body, frm, to, expect, self.counts, path)
+            for (hd, rp) in self.unit_call_repl:
+                new_body = replace_all_calls(new_body, hd, rp, self.counts)
+            for (mth, fnn) in self.unit_method_shims:
+                new_body = rewrite_method_to_fn(new_body, mth, fnn, self.counts)
             for (mode, anchor, ins, lno) in sorted(edits, key=lambda e: 0 if e[0] == "tail" else 1):
                 if mode == "tail":
                     # R9: `{ stmts; tail }` -> `{ stmts; let r__ = tail; <ghost> r__ }` (same evaluation order)
